@@ -761,3 +761,176 @@ def new_state_locals(func):
         if len(stores) > 1:
             out.add(n)
     return out
+
+
+# ---------------------------------------------------------------------------------------------------------------- byte-string builders
+class _Bytes:
+    """the abstract value of a byte string under construction: a list of pieces, each a short canonical text"""
+
+    def __init__(self, pieces):
+        self.pieces = list(pieces)
+
+    def __repr__(self):
+        return ' ++ '.join(self.pieces) or '<empty>'
+
+
+def byte_image(func, sink):
+    """{path condition tuple: [pieces]} - what ``func`` hands to the call ``sink`` (predicate on ast.Call, the image is its last positional
+    argument), with the image followed back through the locals that build it: bytearray()/bytes()/b'' start empty, `+`, `+=`, `.append`,
+    `.extend`, `b''.join(list built by appends)`, `struct.pack(fmt, ..)` and loops appending per element.  A piece is written
+    `pack(<fmt>; <args>)`, `byte(<e>)`, `token(<name>)`, `each(<var> in <iter>: <pieces>)`, `crc(<expr>)`... ; anything not understood
+    is an opaque `?(<text>)`.  None when the function is not plain enough (only assignments, ifs, fors over plain bodies, calls)."""
+    import copy as _copy
+
+    def val(e, env):
+        # -> _Bytes or None (not a byte string we follow)
+        if isinstance(e, ast.Constant) and isinstance(e.value, (bytes, bytearray)):
+            return _Bytes(['lit(%s)' % e.value.hex()] if e.value else [])
+        if isinstance(e, ast.Name):
+            v = env.get(e.id)
+            if isinstance(v, _Bytes):
+                return _Bytes(v.pieces)
+            if isinstance(v, list):
+                return None
+            return _Bytes(['token(%s)' % e.id]) if e.id.isupper() else None
+        if isinstance(e, ast.Call):
+            f = norm(e.func)
+            if f in ('bytearray', 'bytes') and not e.keywords:
+                if not e.args:
+                    return _Bytes([])
+                inner = val(e.args[0], env)
+                if inner is not None:
+                    return inner
+                return _Bytes(['?(%s)' % norm(e.args[0])])
+            if f in ('struct.pack',) and e.args:
+                args = []
+                for a in e.args[1:]:
+                    if isinstance(a, ast.Starred) and isinstance(a.value, ast.Name) and isinstance(env.get(a.value.id), ast.Tuple):
+                        args.extend(norm(x) for x in env[a.value.id].elts)
+                    else:
+                        args.append(norm(a))
+                fmt = norm(e.args[0]).strip("'\"")
+                if fmt.lstrip('<>=!') == 'B' and len(args) == 1:
+                    return _Bytes(['byte(%s)' % expand(args[0], env)])
+                return _Bytes(['pack(%s; %s)' % (fmt, ', '.join(expand(a, env) for a in args))])
+            if isinstance(e.func, ast.Attribute) and e.func.attr == 'join' and isinstance(e.func.value, ast.Constant) and e.func.value.value == b'' and len(e.args) == 1:
+                a = e.args[0]
+                if isinstance(a, ast.Name) and isinstance(env.get(a.id), list):
+                    out = []
+                    for p_ in env[a.id]:
+                        out.extend(p_.pieces)
+                    return _Bytes(out)
+                if isinstance(a, (ast.Tuple, ast.List)):
+                    out = []
+                    for x in a.elts:
+                        vx = val(x, env)
+                        out.extend(vx.pieces if vx is not None else ['?(%s)' % norm(x)])
+                    return _Bytes(out)
+            if isinstance(e.func, ast.Attribute) and e.func.attr == 'encode':
+                return _Bytes(['enc(%s)' % norm(e)])
+            return None
+        if isinstance(e, ast.BinOp) and isinstance(e.op, ast.Add):
+            a, b = val(e.left, env), val(e.right, env)
+            if a is not None or b is not None:
+                return _Bytes((a.pieces if a is not None else ['?(%s)' % norm(e.left)]) + (b.pieces if b is not None else ['?(%s)' % norm(e.right)]))
+        return None
+
+    def expand(text, env):
+        # scalars computed from an image so far (`crc32(x) & 255`, `self._checksum256(image)`) name the image they were taken of
+        try:
+            e = ast.parse(text, mode='eval').body
+        except SyntaxError:
+            return text
+        if isinstance(e, ast.Name) and isinstance(env.get(e.id), str):
+            return env[e.id]
+        for n in ast.walk(e):
+            if isinstance(n, ast.Name) and isinstance(env.get(n.id), _Bytes):
+                return '%s[%s]' % (norm(e), ' ++ '.join(env[n.id].pieces))
+        return text
+
+    results = {}
+
+    def run(stmts, env, conds):
+        live = [(env, conds)]
+        for st in stmts:
+            nxt = []
+            for env_, conds_ in live:
+                e2 = dict(env_)
+                if is_noise(st) or (isinstance(st, ast.Expr) and isinstance(st.value, ast.Constant)):
+                    nxt.append((e2, conds_))
+                    continue
+                if isinstance(st, ast.Assign) and len(st.targets) == 1 and isinstance(st.targets[0], ast.Name):
+                    t = st.targets[0].id
+                    v = val(st.value, e2)
+                    if v is not None:
+                        e2[t] = v
+                    elif isinstance(st.value, ast.List) and not st.value.elts:
+                        e2[t] = []
+                    elif isinstance(st.value, ast.Tuple):
+                        e2[t] = st.value
+                    else:
+                        e2[t] = expand(norm(st.value), e2)
+                    nxt.append((e2, conds_))
+                elif isinstance(st, ast.Assign) and len(st.targets) == 1 and isinstance(st.targets[0], ast.Attribute):
+                    nxt.append((e2, conds_))
+                elif isinstance(st, ast.AugAssign) and isinstance(st.op, ast.Add) and isinstance(st.target, ast.Name) and isinstance(e2.get(st.target.id), _Bytes):
+                    v = val(st.value, e2)
+                    e2[st.target.id] = _Bytes(e2[st.target.id].pieces + (v.pieces if v is not None else ['?(%s)' % norm(st.value)]))
+                    nxt.append((e2, conds_))
+                elif isinstance(st, ast.Expr) and isinstance(st.value, ast.Call):
+                    c = st.value
+                    if isinstance(c.func, ast.Attribute) and isinstance(c.func.value, ast.Name) and c.func.attr in ('append', 'extend') and len(c.args) == 1:
+                        tgt = e2.get(c.func.value.id)
+                        if isinstance(tgt, _Bytes):
+                            if c.func.attr == 'append':
+                                e2[c.func.value.id] = _Bytes(tgt.pieces + ['byte(%s)' % expand(norm(c.args[0]), e2)])
+                            else:
+                                v = val(c.args[0], e2)
+                                e2[c.func.value.id] = _Bytes(tgt.pieces + (v.pieces if v is not None else ['?(%s)' % norm(c.args[0])]))
+                        elif isinstance(tgt, list) and c.func.attr == 'append':
+                            v = val(c.args[0], e2)
+                            e2[c.func.value.id] = tgt + [v if v is not None else _Bytes(['?(%s)' % norm(c.args[0])])]
+                    if sink(c):
+                        a = c.args[-1] if c.args else None
+                        img = None
+                        if isinstance(a, ast.Call) and norm(a.func) == 'tuple' and len(a.args) == 1:
+                            img = val(a.args[0], e2)
+                        elif isinstance(a, ast.Call) and norm(a.func) == 'struct.unpack' and len(a.args) == 2:
+                            img = val(a.args[1], e2)
+                        elif a is not None:
+                            img = val(a, e2)
+                        results[conds_] = img.pieces if img is not None else ['?(%s)' % (norm(a) if a is not None else '')]
+                    nxt.append((e2, conds_))
+                elif isinstance(st, ast.If):
+                    t = norm(st.test)
+                    nxt += run(st.body, dict(e2), conds_ + ((t, True),))
+                    nxt += run(st.orelse, dict(e2), conds_ + ((t, False),))
+                elif isinstance(st, ast.For) and not st.orelse:
+                    # one symbolic turn of the body: what every followed byte string gained is an `each(..)` piece
+                    before = {k: list(v.pieces) if isinstance(v, _Bytes) else (list(v) if isinstance(v, list) else None) for k, v in e2.items()}
+                    inner = run(st.body, dict(e2), conds_)
+                    if len(inner) != 1:
+                        raise ValueError('branching loop body')
+                    e3 = inner[0][0]
+                    for k, v in e3.items():
+                        if isinstance(v, _Bytes) and before.get(k) is not None and isinstance(e2.get(k), _Bytes) and len(v.pieces) > len(before[k]):
+                            gained = v.pieces[len(before[k]):]
+                            e2[k] = _Bytes(before[k] + ['each(%s in %s: %s)' % (norm(st.target), norm(st.iter), ' ++ '.join(gained))])
+                        elif isinstance(v, list) and isinstance(before.get(k), list) and isinstance(e2.get(k), list) and len(v) > len(before[k]):
+                            gained = [p_ for x in v[len(before[k]):] for p_ in x.pieces]
+                            e2[k] = before_list(e2[k]) + [_Bytes(['each(%s in %s: %s)' % (norm(st.target), norm(st.iter), ' ++ '.join(gained))])]
+                    nxt.append((e2, conds_))
+                elif isinstance(st, (ast.Return, ast.Raise)):
+                    pass
+                else:
+                    raise ValueError(type(st).__name__)
+            live = nxt
+        return live
+
+    def before_list(v):
+        return list(v)
+    try:
+        run(func.node.body, {}, ())
+    except ValueError:
+        return None
+    return results
